@@ -48,8 +48,8 @@ namespace Dec
 def scaled (a b : Dec) : Int × Int :=
   let e := min a.exp b.exp
   (a.mant * 10 ^ (a.exp - e).toNat, b.mant * 10 ^ (b.exp - e).toNat)
-def le (a b : Dec) : Bool := let (x, y) := scaled a b; decide (x ≤ y)
-def lt (a b : Dec) : Bool := let (x, y) := scaled a b; decide (x < y)
+def le (a b : Dec) : Bool := decide ((scaled a b).1 ≤ (scaled a b).2)
+def lt (a b : Dec) : Bool := decide ((scaled a b).1 < (scaled a b).2)
 def ofInt (i : Int) : Dec := ⟨i, 0⟩
 def zero : Dec := ⟨0, 0⟩
 def one : Dec := ⟨1, 0⟩
@@ -77,7 +77,7 @@ inductive Outcome (α : Type) where
   | reuse (a : α)
   | discard
   | refuse (e : Err)
-deriving Repr
+deriving Repr, DecidableEq
 
 namespace Outcome
 def bind {α β} : Outcome α → (α → Outcome β) → Outcome β
@@ -597,6 +597,17 @@ def toJson (x : HmmDet) : J :=
         ("enabled_types", jStrs x.enabledTypes),
         ("rule_results", x.rules.toJson),
         ("strictness", .str x.strictness)]
+/-- `json["enabled_types"]` -/
+def enabledOf (kv : List (String × J)) : Outcome (List String) :=
+  match lookup "enabled_types" kv with
+  | some j => asStrs j
+  | none => .refuse .key
+/-- `json.get("strictness", "relaxed")` -/
+def strictnessOf (kv : List (String × J)) : Outcome String :=
+  match lookup "strictness" kv with
+  | some (.str s) => .reuse s
+  | none => .reuse "relaxed"
+  | _ => .refuse .type
 def fromJson (ctx : Ctx) : J → Outcome HmmDet
   | .obj kv =>
     match lookup "schema_version" kv with
@@ -614,13 +625,8 @@ def fromJson (ctx : Ctx) : J → Outcome HmmDet
               | .refuse e => .refuse e
               | .discard => .refuse .value
               | .reuse rr => do
-                let et ← match lookup "enabled_types" kv with
-                  | some j => asStrs j
-                  | none => Outcome.refuse .key
-                let strictness ← match lookup "strictness" kv with
-                  | some (.str s) => Outcome.reuse s
-                  | none => Outcome.reuse "relaxed"
-                  | _ => Outcome.refuse .type
+                let et ← enabledOf kv
+                let strictness ← strictnessOf kv
                 if !strictnessLevels.contains strictness then .refuse .value
                 else .reuse ⟨ctx.recordId, rr, et, strictness⟩
   | _ => .refuse .type
@@ -862,16 +868,34 @@ def toJson (h : HmmerHit) : J :=
         ("domain", .str h.domain), ("evalue", .num h.evalue), ("score", .num h.score),
         ("identifier", .str h.identifier), ("description", .str h.description),
         ("protein_start", .int h.pStart), ("protein_end", .int h.pEnd), ("translation", .str h.translation)]
+/-- keyword argument of `HmmerHit(**data)`: a missing key is a TypeError -/
+def kwStr (kv : List (String × J)) (k : String) : Outcome String :=
+  match lookup k kv with
+  | some (.str s) => .reuse s
+  | _ => .refuse .type
+def kwInt (kv : List (String × J)) (k : String) : Outcome Int :=
+  match lookup k kv with
+  | some (.int s) => .reuse s
+  | _ => .refuse .type
+def kwNum (kv : List (String × J)) (k : String) : Outcome Dec :=
+  match lookup k kv with
+  | some (.num s) => .reuse s
+  | _ => .refuse .type
 /-- `HmmerHit(**data)`: a missing or surplus key is a TypeError -/
 def fromJson : J → Outcome HmmerHit
-  | .obj kv =>
-    match lookup "location" kv, lookup "label" kv, lookup "locus_tag" kv, lookup "domain" kv,
-          lookup "evalue" kv, lookup "score" kv, lookup "identifier" kv, lookup "description" kv,
-          lookup "protein_start" kv, lookup "protein_end" kv, lookup "translation" kv with
-    | some (.str a), some (.str b), some (.str c), some (.str d), some (.num e), some (.num f),
-      some (.str g), some (.str h), some (.int i), some (.int j), some (.str k) =>
-      if kv.length != 11 then .refuse .type else make ⟨a, b, c, d, e, f, g, h, i, j, k⟩
-    | _, _, _, _, _, _, _, _, _, _, _ => .refuse .type
+  | .obj kv => do
+    let a ← kwStr kv "location"
+    let b ← kwStr kv "label"
+    let c ← kwStr kv "locus_tag"
+    let d ← kwStr kv "domain"
+    let e ← kwNum kv "evalue"
+    let f ← kwNum kv "score"
+    let g ← kwStr kv "identifier"
+    let h ← kwStr kv "description"
+    let i ← kwInt kv "protein_start"
+    let j ← kwInt kv "protein_end"
+    let k ← kwStr kv "translation"
+    if kv.length != 11 then .refuse .type else make ⟨a, b, c, d, e, f, g, h, i, j, k⟩
   | _ => .refuse .type
 def valid (h : HmmerHit) : Bool := (make h).isReuse
 end HmmerHit
